@@ -1708,6 +1708,19 @@ class Interp:
             raise Unanalysable('indirect call in %s' % fn.path, site)
         if name == '#call_closure':
             return self.call_closure_value(st, fr, t, args, work, out)
+        if name == '#raw_next':
+            name = 'std::iter::Iterator::next'
+        elif name.endswith('std::iter::Iterator>::next') or name == 'std::iter::Iterator::next':
+            # an iterator value that carries closure adaptors (map / filter / ..): enter the model of its `next`
+            itv = args[0] if args else None
+            while isinstance(itv, Ref):
+                itv = self.load(st, itv.cell, itv.path)
+            if isinstance(itv, Iter) and itv.fns:
+                kinds = [k for k in itv.kind if k in ('map', 'filter', 'take_while', 'inspect')]
+                if len(kinds) != len(itv.fns):
+                    raise Unanalysable('adaptor closures of %r' % (itv.kind,), site)
+                from . import lower
+                return self.enter(st, fr, lower.next_model(self.crate, kinds), [args[0]], dest, target, out)
         if self.on_call:
             r = self.on_call(self, st, name, args, site, c)
             if r is not None:
